@@ -17,6 +17,7 @@ RULE = ('Hypothesis point-set pairs (n1 2-30, n2 1-30) from labelled families: c
         'maxmatch=k checked as a validity predicate against the unlimited list of the same input.  Non-trivial = >=1 true '
         'pair and (pairs found from >=2 chunks | seam straddled | |Dec|>80 | k-limited).')
 RULE += '  Also: match lengths up to 87 deg, slice-edge family (default chunk, ml 25-75 deg, partners across RA chunk edges at the +-30 deg slice edges), points down to 1 ulp from a pole, crowded fields with maxmatch >= 128.'
+RULE += ' Round 5: sub-check grid_edge_probes (pairs across RA chunk edges at the polar edge of declination slices, grid read from the package).'
 ASSUMPTIONS = ['chunksize >= 4 x matchlength (IDL documentation; what spheregroup enforces)',
                'grid bounded to <= 2e4 cells by enlarging the chunk size (memory of the chunk grid, not a property)',
                'first list has >= 2 points; RA in [0,360), |Dec| < 90 (down to 1e-13 deg from a pole)',
